@@ -26,6 +26,8 @@ type Term struct {
 	// Strip, when set, means "the string with every (leftmost, non-overlapping)
 	// match of this pattern removed" (ReplaceAllString(term, "")).
 	Strip *RegexConst
+	// Strip2: a second removal applied to the result of the first.
+	Strip2 *RegexConst
 	// Unesc: html.UnescapeString applied. Not a letter map: a term with Unesc
 	// is treated as a string variable of its own (languages are over the
 	// decoded string).
@@ -57,6 +59,8 @@ type Form struct {
 	Sub  []*Form
 	Atom *LAtom
 	Why  string
+	// In: for an unknown, the function holding the value that could not be modelled.
+	In *ssa.Function
 }
 
 func fTrue() *Form           { return &Form{Op: "true"} }
@@ -98,6 +102,19 @@ func (f *Form) String() string {
 	return "(" + strings.Join(ss, sep) + ")"
 }
 
+// UnknownIn returns the function holding the first unmodelled value.
+func (f *Form) UnknownIn() *ssa.Function {
+	if f.Op == "unknown" {
+		return f.In
+	}
+	for _, s := range f.Sub {
+		if u, _ := s.HasUnknown(); u {
+			return s.UnknownIn()
+		}
+	}
+	return nil
+}
+
 func (f *Form) HasUnknown() (bool, string) {
 	if f.Op == "unknown" {
 		return true, f.Why
@@ -126,6 +143,8 @@ type Summarizer struct {
 	regexes map[string]*RegexConst // "pkg.var" -> constant
 	// Inexact is set when a guard had to be dropped (result over-approximates).
 	Inexact []string
+	// InexactIn[i] is the function holding the value dropped in Inexact[i] (nil when not known).
+	InexactIn []*ssa.Function
 	// exits whose guards must be pairwise disjoint for exactness
 	exitGroups [][]*Form
 	depth      int
@@ -224,10 +243,14 @@ func (s *Summarizer) termOf(v ssa.Value, env termEnv) (Term, bool) {
 					rc := s.regexOf(c.Args[0])
 					t, ok := s.termOf(c.Args[1], env)
 					repl, okr := constString(c.Args[2])
-					if rc == nil || !ok || !okr || repl != "" || t.Lower || t.Strip != nil {
+					if rc == nil || !ok || !okr || repl != "" || t.Lower || t.Strip2 != nil {
 						return Term{}, false
 					}
-					t.Strip = rc
+					if t.Strip == nil {
+						t.Strip = rc
+					} else {
+						t.Strip2 = rc
+					}
 					return t, true
 				}
 			}
@@ -385,6 +408,16 @@ func atom(a *LAtom) *Form { return &Form{Op: "atom", Atom: a} }
 
 // ValueForm converts a boolean SSA value.
 func (s *Summarizer) ValueForm(v ssa.Value, env termEnv) *Form {
+	f := s.valueForm(v, env)
+	if f.Op == "unknown" && f.In == nil {
+		if in, ok := v.(ssa.Instruction); ok {
+			f.In = in.Parent()
+		}
+	}
+	return f
+}
+
+func (s *Summarizer) valueForm(v ssa.Value, env termEnv) *Form {
 	s.depth++
 	defer func() { s.depth-- }()
 	if s.depth > 30 {
@@ -473,6 +506,9 @@ func termStr(t Term) string {
 	s := fmt.Sprintf("p%d", t.Param)
 	if t.Strip != nil {
 		s = "strip(" + s + "," + t.Strip.Name + ")"
+	}
+	if t.Strip2 != nil {
+		s = "strip(" + s + "," + t.Strip2.Name + ")"
 	}
 	if t.Unesc {
 		s = "unescape(" + s + ")"
@@ -740,6 +776,7 @@ func (s *Summarizer) blockCond(b *ssa.BasicBlock, env termEnv, what string) *For
 					ec := s.ValueForm(iff.Cond, env)
 					if u, why := ec.HasUnknown(); u {
 						s.Inexact = append(s.Inexact, fmt.Sprintf("%s: branch condition dropped (%s)", what, why))
+						s.InexactIn = append(s.InexactIn, ec.UnknownIn())
 					} else {
 						if p.Succs[1] == x {
 							ec = fNot(ec)
@@ -766,6 +803,7 @@ func (s *Summarizer) blockCond(b *ssa.BasicBlock, env termEnv, what string) *For
 		if u, why := f.HasUnknown(); u {
 			// a dropped conjunct only weakens the condition
 			s.Inexact = append(s.Inexact, fmt.Sprintf("%s: guard dropped (%s)", what, why))
+			s.InexactIn = append(s.InexactIn, f.UnknownIn())
 			continue
 		}
 		if !g.Pol {
@@ -789,6 +827,7 @@ func (s *Summarizer) phiForm(phi *ssa.Phi, env termEnv) *Form {
 			ec := s.ValueForm(iff.Cond, env)
 			if u, why := ec.HasUnknown(); u {
 				s.Inexact = append(s.Inexact, "phi edge condition dropped: "+why)
+				s.InexactIn = append(s.InexactIn, ec.UnknownIn())
 			} else {
 				if p.Succs[1] == d {
 					ec = fNot(ec)
@@ -823,6 +862,7 @@ func (s *Summarizer) FuncForm(f *ssa.Function, env termEnv) *Form {
 	s.exitGroups = append(s.exitGroups, conds)
 	if hasLoop(f) {
 		s.Inexact = append(s.Inexact, fnName(f)+" contains a loop")
+		s.InexactIn = append(s.InexactIn, f)
 	}
 	return fOr(alts...)
 }
@@ -1001,9 +1041,11 @@ func (l *Lang) Register(f *Form) error {
 		if a.Term.Lower {
 			l.NeedLower()
 		}
-		if a.Term.Strip != nil {
-			if _, e := l.Re(a.Term.Strip.Src); e != nil {
-				err = e
+		for _, st := range []*RegexConst{a.Term.Strip, a.Term.Strip2} {
+			if st != nil {
+				if _, e := l.Re(st.Src); e != nil {
+					err = e
+				}
 			}
 		}
 		switch a.Kind {
@@ -1123,6 +1165,11 @@ func (l *Lang) Eval(f *Form) (*relang.DFA, []string, error) {
 	}
 	// lift applies the term's maps to a language over the term's value.
 	lift := func(d *relang.DFA, t Term) (*relang.DFA, error) {
+		// the removals are undone from the outside in: {x : strip2(strip1(x)) ∈ L} = lift1(lift2(L))
+		if t.Strip2 != nil {
+			l.Overapprox = true
+			d = relang.LiftErase(d, l.FullRe(t.Strip2.Src)).Minimize()
+		}
 		if t.Strip != nil {
 			// ∃-decomposition lift: over-approximates (see relang.LiftErase)
 			l.Overapprox = true
